@@ -134,7 +134,7 @@ func mutCase(t *vlib.T, kind string, ci int, pos int, src string) {
 		tcase(t, key, func() *vlib.Outcome {
 			return runSource(fam, s, mutCtxs, hasOpener(src), func() interface{} {
 				return map[string]interface{}{"corpus": corpus[ci], "mutation": kind, "at": pos, "padded": padded, "source": src}
-			})
+			}, nil)
 		})
 	}
 }
@@ -183,6 +183,16 @@ func runMut(t *vlib.T) {
 					}
 					mutCase(t, "bsub", ci, i*256+int(b), c[:i]+string([]byte{b})+c[i+1:])
 				}
+			}
+		}
+		// a byte replaced by a multi-byte character: U+0130 grows under strings.ToLower, U+212A
+		// (Kelvin sign) shrinks, U+00E9 keeps its length
+		for i := 0; i < len(c); i++ {
+			if c[i] == ' ' && !t.Thorough() {
+				continue
+			}
+			for ui, u := range []string{"\u0130", "\u212a", "\u00e9"} {
+				mutCase(t, "usub", ci, i*4+ui, c[:i]+u+c[i+1:])
 			}
 		}
 		// every space removed (tight form), and every space doubled / turned into a newline
@@ -250,7 +260,7 @@ func runDeep(t *vlib.T) {
 			key := fmt.Sprintf("deep|%s|%d", g.name, n)
 			g, n := g, n
 			tcase(t, key, func() *vlib.Outcome {
-				return runSource("deep-"+g.name, g.f(n), ctxs, true, func() interface{} { return map[string]interface{}{"generator": g.name, "depth": n} })
+				return runSource("deep-"+g.name, g.f(n), ctxs, true, func() interface{} { return map[string]interface{}{"generator": g.name, "depth": n} }, nil)
 			})
 		}
 	}
